@@ -194,37 +194,66 @@ def build_all(root, configs, release=False):
     return {r['config']: r for r in res}
 
 
-def run_zoo(binp, requests, timeout=600, nproc=4):
-    """requests: list of 'idx mode hex' lines. Returns list of output lines (same order).
-    Splits into nproc processes. On timeout of a chunk, returns 'HANG' for the unanswered ones."""
+def _run_chunk(binp, ch, line_timeout):
+    """run one zoo process over the requests `ch`; a request that produces no answer within
+    `line_timeout` seconds is marked HANG (process killed, restarted on the remaining requests);
+    a process that dies marks the request it was working on CRASH."""
+    import threading, queue
+    res = []
+    i = 0
+    restarts = 0
+    while i < len(ch):
+        p = subprocess.Popen([binp], stdin=subprocess.PIPE, stdout=subprocess.PIPE, stderr=subprocess.DEVNULL, text=True, bufsize=1)
+        q = queue.Queue()
+
+        def reader(pp=p, qq=q):
+            for ln in pp.stdout:
+                qq.put(ln.rstrip('\n'))
+            qq.put(None)
+        threading.Thread(target=reader, daemon=True).start()
+
+        def writer(pp=p, todo=ch[i:]):
+            try:
+                pp.stdin.write('\n'.join(todo) + '\n')
+                pp.stdin.close()
+            except Exception:
+                pass
+        threading.Thread(target=writer, daemon=True).start()
+        while i < len(ch):
+            try:
+                ln = q.get(timeout=line_timeout)
+            except queue.Empty:
+                p.kill()
+                res.append(ch[i] + ' : HANG')
+                i += 1
+                restarts += 1
+                break
+            if ln is None:
+                # process ended before answering everything
+                res.append(ch[i] + ' : CRASH')
+                i += 1
+                restarts += 1
+                break
+            if ln.startswith(ch[i] + ' :'):
+                res.append(ln)
+                i += 1
+        else:
+            p.wait()
+            break
+        if restarts > 200:
+            while i < len(ch):
+                res.append(ch[i] + ' : NOTRUN')
+                i += 1
+    return res
+
+
+def run_zoo(binp, requests, timeout=600, nproc=4, line_timeout=20):
+    """requests: list of 'idx mode hex' lines. Returns list of output lines (same order)."""
     if not requests:
         return []
     chunks = [requests[i::nproc] for i in range(nproc)]
-
-    def one(ch):
-        if not ch:
-            return []
-        try:
-            p = subprocess.run([binp], input='\n'.join(ch) + '\n', capture_output=True, text=True, timeout=timeout)
-            lines = p.stdout.split('\n')
-            if lines and lines[-1] == '':
-                lines.pop()
-        except subprocess.TimeoutExpired as e:
-            so = e.stdout.decode() if isinstance(e.stdout, bytes) else (e.stdout or '')
-            lines = so.split('\n')
-            if lines and lines[-1] == '':
-                lines.pop()
-        res = []
-        for i, rq in enumerate(ch):
-            if i < len(lines) and lines[i].startswith(rq + ' : '):
-                res.append(lines[i])
-            elif i == len(lines):
-                res.append(rq + ' : HANG')
-            else:
-                res.append(rq + ' : NOTRUN')
-        return res
     with ThreadPoolExecutor(nproc) as ex:
-        outs = list(ex.map(one, chunks))
+        outs = list(ex.map(lambda ch: _run_chunk(binp, ch, line_timeout), chunks))
     merged = [None] * len(requests)
     for ci, o in enumerate(outs):
         for j, ln in enumerate(o):
